@@ -1,0 +1,12 @@
+//go:build verif
+// +build verif
+
+package ir
+
+import "sync/atomic"
+
+// VerifScopeVisits counts the lexical scopes visited while resolving names
+// (monitor hook: compile work done per byte of source).
+var VerifScopeVisits uint64
+
+func verifScopeVisit() { atomic.AddUint64(&VerifScopeVisits, 1) }
